@@ -1,7 +1,7 @@
 (* C07 - Result codecs round-trip every result and follow the documented layout. *)
 From Coq Require Import ZArith List Bool.
 From V Require Import Base.Duration Base.Str Base.Base64 Model.Csv Model.ResultCodec
-  Proofs.Base64Proofs Proofs.DecimalProofs Proofs.CsvProofs.
+  Proofs.Base64Proofs Proofs.DecimalProofs Proofs.CsvProofs Proofs.ResultCodecProofs Model.Flags.
 Import ListNotations.
 Open Scope Z_scope.
 
@@ -54,6 +54,35 @@ Theorem csv_columns_documented : forall r,
     c_url r             (* 11 URL *);
     b64_encode (header_bytes (c_headers r)) (* 12 base64 encoded response headers *) ].
 Proof. reflexivity. Qed.
+
+(* a whole result through the CSV codec: for every result in the representable domain (int64
+   timestamp/latency, 16-bit code, 64-bit counters, byte-valued body and header block), whose
+   header block net/textproto reads back (reference model, sampled by the tie), decoding the
+   twelve columns gives a result equal in the sense of Result.Equal *)
+Theorem csv_record_roundtrip : forall r, cres_dom r -> hdr_roundtrips (c_headers r) ->
+  exists r', csv_decode_fields (csv_fields r) = Some r' /\ cres_equal r r' = true.
+Proof. exact csv_record_roundtrip_lemma. Qed.
+Print Assumptions csv_record_roundtrip.
+
+(* ... and every stream of such results whose texts contain no CR LF pair decodes to an equal
+   sequence followed by end-of-stream (csv_decode_all returns exactly as many records) *)
+Theorem csv_stream_roundtrip : forall rs,
+  Forall cres_dom rs -> Forall (fun r => hdr_roundtrips (c_headers r)) rs -> Forall texts_ok rs ->
+  exists rs', csv_decode_all (flat_map csv_encode rs) = Some rs' /\ Forall2 (fun a b => cres_equal a b = true) rs rs'.
+Proof. exact csv_stream_roundtrip_lemma. Qed.
+Print Assumptions csv_stream_roundtrip.
+
+Example csv_record_hypotheses_satisfiable :
+  let r := {| c_attack := [97;34;44]; c_seq := 18446744073709551615; c_code := 200; c_ts := 1600000000123456789; c_zone := 0;
+              c_lat := -5; c_bout := 0; c_bin := 7; c_error := [10;32]; c_body := Some [0;255;10;13];
+              c_method := [71;69;84]; c_url := [104;116;116;112;58;47;47;120;47];
+              c_headers := Some [([67;111;110;116;101;110;116;45;84;121;112;101], [[116;101;120;116]]); ([88;45;65], [[49]; [50]])] |} in
+  hdr_roundtrips (c_headers r) /\ texts_ok r /\
+  option_map (cres_equal r) (csv_decode_fields (csv_fields r)) = Some true.
+Proof.
+  cbv zeta. split; [|split; [repeat split|]]; try (vm_compute; reflexivity).
+  eexists. split; vm_compute; reflexivity.
+Qed.
 
 Example csv_roundtrip_nontrivial :
   go_csv_records (concat (map write_record [[ [97; 34; 44; 10; 32]; []; [32; 98] ]; [[]; [34]] ])) =
